@@ -86,7 +86,7 @@ class Gen:
                 cands = ["System total", "System average"] + ["Subsystem " + x for x in srcs]
                 nm = self.r.pick(cands) if self.r.chance(0.5) else "%s%d" % (prefix, self.n)
             elif style == "dot":
-                nm = self.r.pick(["%s:%d" % (prefix, self.n), "node", "edge", "graph", "%s%d" % (prefix, self.n), '%d" %s' % (self.n, prefix), "%s\\%d" % (prefix, self.n)])
+                nm = self.r.pick(["%s:%d" % (prefix, self.n), "node", "edge", "graph", "%s%d" % (prefix, self.n), '%d" %s' % (self.n, prefix), "%s\\%d" % (prefix, self.n), "Scale", "cluster_%d" % self.n])
             else:
                 nm = "%s%d" % (prefix, self.n)
             if m is None or nm not in m.used_names():
@@ -270,7 +270,12 @@ class Gen:
         # enabled input class (known finding D1, see KNOWN_FINDINGS.json)
         if self.r.chance(0.6) and (v > 0 or self.cfg.get("neg_source_rs")):
             p["rs"] = self.neg(self.r.pick([0.01, 0.05, 0.1, 0.2, 0.5]))
-        return mk("Source", name, p, self.limits_for("Source"))
+        return self.form(mk("Source", name, p, self.limits_for("Source")))
+
+    def form(self, spec):
+        if self.cfg.get("arg_forms") and self.r.chance(0.6):
+            spec["form"] = self.r.pick(["int", "np"])
+        return spec
 
     def comp(self, kind, m, vnom, name=None, heavy=False):
         """A component of `kind` sized for a supply of about `vnom` volts."""
@@ -368,7 +373,7 @@ class Gen:
         spec = mk(kind, name, p, self.limits_for(kind))
         if self.cfg.get("via_file") and self.r.chance(self.cfg["via_file"]):
             spec["via_file"] = True  # built with Kind.from_file from a stored TOML file
-        return spec
+        return self.form(spec)
 
     def mux_rs(self, spec, ninputs):
         if self.r.chance(0.5):
@@ -383,6 +388,9 @@ class Gen:
     # ------------------------------------------------------------------
     # argument helpers
     def group(self):
+        if self.cfg["names"] == "dot" and self.r.chance(0.5):
+            # group names are free strings too
+            return self.r.pick(["p:wr", 'a "b"', "node", "x\\y", "cluster", "Scale", "a;b", "{c}"])
         return self.r.pick(GROUPS) if self.r.chance(self.cfg["groups"]) else ""
 
     def rail(self, m, kind):
